@@ -97,7 +97,7 @@ func FinishVoid(fns ...func()) {
 // ForEach maps all elements from given generate but no output.
 func ForEach[T any](generate GenerateFunc[T], mapper ForEachFunc[T], opts ...Option) {
 	options := buildOptions(opts...)
-	panicChan := &onceChan{channel: make(chan any)}
+	panicChan := newOnceChan()
 	source := buildSource(generate, panicChan)
 	collector := make(chan any)
 	done := make(chan struct{})
@@ -120,6 +120,7 @@ func ForEach[T any](generate GenerateFunc[T], mapper ForEachFunc[T], opts ...Opt
 			panic(v)
 		case _, ok := <-collector:
 			if !ok {
+				panicChan.rethrow()
 				return
 			}
 		}
@@ -130,7 +131,7 @@ func ForEach[T any](generate GenerateFunc[T], mapper ForEachFunc[T], opts ...Opt
 // and reduces the output elements with given reducer.
 func MapReduce[T, U, V any](generate GenerateFunc[T], mapper MapperFunc[T, U], reducer ReducerFunc[U, V],
 	opts ...Option) (V, error) {
-	panicChan := &onceChan{channel: make(chan any)}
+	panicChan := newOnceChan()
 	source := buildSource(generate, panicChan)
 	return mapReduceWithPanicChan(source, panicChan, mapper, reducer, opts...)
 }
@@ -138,7 +139,7 @@ func MapReduce[T, U, V any](generate GenerateFunc[T], mapper MapperFunc[T, U], r
 // MapReduceChan maps all elements from source, and reduce the output elements with given reducer.
 func MapReduceChan[T, U, V any](source <-chan T, mapper MapperFunc[T, U], reducer ReducerFunc[U, V],
 	opts ...Option) (V, error) {
-	panicChan := &onceChan{channel: make(chan any)}
+	panicChan := newOnceChan()
 	return mapReduceWithPanicChan(source, panicChan, mapper, reducer, opts...)
 }
 
@@ -253,25 +254,27 @@ func mapReduceWithPanicChan[T, U, V any](source <-chan T, panicChan *onceChan, m
 	options := buildOptions(opts...)
 	// output is used to write the final result
 	output := make(chan V)
+	// if done is closed, all mappers and reducer should stop processing
+	done := make(chan struct{})
 	defer func() {
 		// reducer can only write once, if more, panic
-		for range output {
+		select {
+		case <-output:
 			panic("more than one element written in reducer")
+		case <-done:
 		}
 	}()
 
 	// collector is used to collect data from mapper, and consume in reducer
 	collector := make(chan U, options.workers)
-	// if done is closed, all mappers and reducer should stop processing
-	done := make(chan struct{})
 	writer := newGuardedWriter(options.ctx, output, done)
 	var closeOnce sync.Once
 	// use atomic type to avoid data race
 	var retErr errorx.AtomicError
+	// output is never closed: the reducer may be in the middle of writing to it
 	finish := func() {
 		closeOnce.Do(func() {
 			close(done)
-			close(output)
 		})
 	}
 	cancel := once(func(err error) {
@@ -314,14 +317,30 @@ func mapReduceWithPanicChan[T, U, V any](source <-chan T, panicChan *onceChan, m
 		cancel(context.DeadlineExceeded)
 		err = context.DeadlineExceeded
 	case v := <-panicChan.channel:
-		// drain output here, otherwise for loop panic in defer
-		drain(output)
-		panic(v)
-	case v, ok := <-output:
+		// keep receiving from output until the reducer is done, otherwise the reducer
+		// blocks on writing, or the select in defer panics
+		for {
+			select {
+			case <-output:
+			case <-done:
+				panic(v)
+			}
+		}
+	case v := <-output:
+		// a panic that happened before the output was written takes precedence
+		panicChan.rethrow()
 		if e := retErr.Load(); e != nil {
 			err = e
-		} else if ok {
+		} else {
 			val = v
+		}
+	case <-done:
+		panicChan.rethrow()
+		if e := retErr.Load(); e != nil {
+			err = e
+		} else if options.ctx.Err() != nil {
+			// done and ctx.Done() were both ready: the writes were dropped because of ctx
+			err = context.DeadlineExceeded
 		} else {
 			err = ErrReduceNoOutput
 		}
@@ -363,15 +382,37 @@ func newGuardedWriter[T any](ctx context.Context, channel chan<- T, done <-chan 
 func (gw guardedWriter[T]) Write(v T) {
 	select {
 	case <-gw.ctx.Done():
+		return
 	case <-gw.done:
+		return
 	default:
-		gw.channel <- v
+	}
+
+	select {
+	case <-gw.ctx.Done():
+	case <-gw.done:
+	case gw.channel <- v:
 	}
 }
 
 type onceChan struct {
 	channel chan any
 	wrote   int32
+}
+
+// newOnceChan returns an onceChan whose only write never blocks,
+// even if nobody is receiving from it anymore.
+func newOnceChan() *onceChan {
+	return &onceChan{channel: make(chan any, 1)}
+}
+
+// rethrow panics with the written value, if any.
+func (oc *onceChan) rethrow() {
+	select {
+	case v := <-oc.channel:
+		panic(v)
+	default:
+	}
 }
 
 func (oc *onceChan) write(val any) {
